@@ -150,7 +150,7 @@ def worker(case):
         for name in exp["primitives"]:
             if got["leaf"].get(name) is not True:
                 probs.append(("black-box-not-a-leaf-primitive:" + tag, name))
-    for c, dd in wf.wf_netlist(n):
+    for c, dd in wf.wf_netlist(n) + wf.shared_metadata(n):
         probs.append(("malformed-netlist:%s:%s" % (c, tag), dd))
     # write-then-read
     out = os.path.join(core.scratch_dir(), "rt_%d.eblif" % os.getpid())
